@@ -32,6 +32,7 @@
 #include "ptg_rt.h"
 #include "parsec/runtime.h"
 #include "parsec/data_internal.h"
+#include "parsec/vpmap.h"
 #include "parsec/sys/atomic.h"
 
 /* ------------------------------------------------------------------ log */
@@ -161,13 +162,20 @@ static int dc_index(ptg_dc_t *d, int k) {
     return k;
 }
 static uint32_t dc_rank_of(parsec_data_collection_t *desc, ...) { (void)desc; return 0; }
-static int32_t  dc_vpid_of(parsec_data_collection_t *desc, ...) { (void)desc; return 0; }
+/* virtual process of D(k): k mod nb_vp.  With the default (flat) map there is one VP and this is 0 as before;
+ * C16 runs some configurations with several VPs (vpmap=hwloc on a synthetic topology) and classes placed on
+ * `: D(<first parameter>)`, so that instances are spread over the VPs. */
+static int32_t dc_vp_of_int(int k) { int n = parsec_vpmap_get_nb_vp(); if (n <= 1) return 0; return ((k % n) + n) % n; }
+static int32_t  dc_vpid_of(parsec_data_collection_t *desc, ...) {
+    va_list ap; va_start(ap, desc); int k = va_arg(ap, int); va_end(ap);
+    (void)desc; return dc_vp_of_int(k);
+}
 static parsec_data_key_t dc_data_key(parsec_data_collection_t *desc, ...) {
     va_list ap; va_start(ap, desc); int k = va_arg(ap, int); va_end(ap);
     return (parsec_data_key_t)dc_index((ptg_dc_t *)desc, k);
 }
 static uint32_t dc_rank_of_key(parsec_data_collection_t *desc, parsec_data_key_t key) { (void)desc; (void)key; return 0; }
-static int32_t  dc_vpid_of_key(parsec_data_collection_t *desc, parsec_data_key_t key) { (void)desc; (void)key; return 0; }
+static int32_t  dc_vpid_of_key(parsec_data_collection_t *desc, parsec_data_key_t key) { (void)desc; return dc_vp_of_int((int)key); }
 static parsec_data_t *dc_data_of_key(parsec_data_collection_t *desc, parsec_data_key_t key) {
     ptg_dc_t *d = (ptg_dc_t *)desc;
     int k = dc_index(d, (int)key);
@@ -266,6 +274,7 @@ static int run_config(int cores, int pargc, char **pargv, int reps) {
         printf("\n");
     }
     printf("NBTASKS %d\n", completed);
+    printf("NBVP %d\n", parsec_vpmap_get_nb_vp());
     printf("D");
     for (int k = 0; k < dc->n; k++) printf(" %" PRId64, *(int64_t *)(dc->mem + (size_t)k * PTG_RT_ELT_BYTES));
     printf("\nOOR %d\n", (int)dc->out_of_range);
